@@ -140,7 +140,75 @@ func eq(a, b string) string {
 	return sx("=", a, b)
 }
 
-func sel(a, i string) string      { return sx("select", a, i) }
+// curDefs: definitions of the script currently being generated (VC generation is sequential).
+var curDefs map[string]string
+var curScript *Script
+
+const idxAxiom = "(assert (forall ((o!q (_ BitVec 64)) (k!q (_ BitVec 64))) (! (= (idx o!q k!q) (bvadd o!q k!q)) :pattern ((idx o!q k!q)))))"
+
+// mkIdx builds (idx off k); for ground terms the defining equation is asserted at once, so that
+// quantifier-free problems do not depend on instantiating the idx axiom.
+func mkIdx(off, k string) string {
+	t := sx("idx", off, k)
+	if curScript != nil && !strings.Contains(t, "!q") {
+		if !curScript.idxSeen[t] {
+			curScript.idxSeen[t] = true
+			curScript.assert(eq(t, sx("bvadd", off, k)))
+		}
+	}
+	return t
+}
+
+func isAllocConst(t string) bool {
+	for _, p := range []string{"obj!", "arr!", "map!", "box!", "err!", "txn!", "clo!", "chan!"} {
+		if strings.HasPrefix(t, p) {
+			return true
+		}
+	}
+	return false
+}
+
+// provablyDistinctRefs: two reference terms that cannot be equal by construction
+// (different allocation sites; an allocation vs. a parameter, which existed before it).
+func provablyDistinctRefs(a, b string) bool {
+	if a == b {
+		return false
+	}
+	if isAllocConst(a) && (isAllocConst(b) || strings.HasPrefix(b, "p.")) {
+		return true
+	}
+	if isAllocConst(b) && strings.HasPrefix(a, "p.") {
+		return true
+	}
+	return false
+}
+
+// sel builds (select a i), looking through stores whose index is syntactically equal to i or
+// provably different from it.
+func sel(a, i string) string {
+	for depth := 0; depth < 64; depth++ {
+		d, ok := curDefs[a]
+		if !ok {
+			d = a
+		}
+		if !strings.HasPrefix(d, "(store ") {
+			break
+		}
+		_, args, ok := splitArgs(d)
+		if !ok || len(args) != 3 {
+			break
+		}
+		if args[1] == i {
+			return args[2]
+		}
+		if provablyDistinctRefs(args[1], i) {
+			a = args[0]
+			continue
+		}
+		break
+	}
+	return sx("select", a, i)
+}
 func store(a, i, v string) string { return sx("store", a, i, v) }
 
 // quote makes an arbitrary name a legal SMT symbol.
@@ -167,13 +235,20 @@ type Script struct {
 	counter  int
 	sorts    map[string]bool
 	defs     map[string]string // defined constant -> its definition
+	idxSeen  map[string]bool
 }
 
 func newScript() *Script {
-	s := &Script{declared: map[string]string{}, sorts: map[string]bool{}}
+	s := &Script{declared: map[string]string{}, sorts: map[string]bool{}, defs: map[string]string{}, idxSeen: map[string]bool{}}
+	curDefs = s.defs
+	curScript = s
 	s.lines = append(s.lines,
 		"(declare-sort Str 0)",
 		"(declare-sort Flt 0)",
+		// element addresses are written (idx off k) = off + k: an uninterpreted handle that
+		// E-matching can see through index arithmetic
+		"(declare-fun idx ((_ BitVec 64) (_ BitVec 64)) (_ BitVec 64))",
+		idxAxiom,
 	)
 	return s
 }
@@ -227,6 +302,7 @@ func (s *Script) define(prefix, sort, t string) string {
 		s.defs = map[string]string{}
 	}
 	s.defs[n] = t
+	curDefs = s.defs
 	return n
 }
 
